@@ -291,3 +291,54 @@ def check_sibling_codecs(ctx, ht, rule, select=lambda s: True):
                 n += 1
                 ctx.ok(rule, sel[0].func, 'field %d:%d' % (lo, hi), '%d writers agree on %s' % (len(ss), ss[0].fmt))
     return n
+
+
+def check_copy_bounds(ctx, ht, rule, select=lambda f: True):
+    """A copy of the reader's header is DISK_BLOCK_BYTES * n_header_blocks long and the reader itself allows files with a
+    single header block (it reads further blocks only `if n_header_blocks != 1`).  A slice store into such a copy beyond
+    the first block is inside the buffer only when the header has that block: assigning to a slice past the end of a
+    bytearray appends the bytes, the written header grows and every offset behind it shifts.  So a store whose range
+    ends after the first disk block must be dominated by a test on the number of header blocks / the length of the copy."""
+    P = ht.P
+    dsk = P.const_value(P.modules['sgzconstants'], 'DISK_BLOCK_BYTES')
+    n = 0
+    for s in ht.stores:
+        if s.kind != 'store' or not select(s.func):
+            continue
+        if TB.header_buffers(P, s.func).get(s.buf) != 'copy':
+            continue
+        n += 1
+        label = '%s[%d:%d] in %s' % (s.buf, s.lo, s.hi, s.func.name)
+        if s.hi <= dsk:
+            ctx.ok(rule, s.func, label, 'within the first header block, which every file has', nontrivial=False)
+            continue
+        fm = ht.fm(s.func)
+        guarded = False
+        for facts in (fm.paths_at(s.stmt) or []):
+            ok = False
+            for a in facts:
+                txt = ' '.join(str(x) for x in a)
+                if ('n_header_blocks' in txt or 'len(%s)' % s.buf in txt or 'len(self.headerbytes)' in txt) and \
+                        a[0] in ('>', '>=', '==', '!=', '<', '<=', 'T', 'F'):
+                    ok = True
+            guarded = ok
+            if not ok:
+                break
+        if not guarded:
+            # a fixed-width decode of source bytes at or beyond the same position completed before the store: struct.unpack
+            # raises on a short slice, so the source header (and its copy) is known to reach that far
+            from .facts import happened_before
+            for l in ht.loads:
+                if l.func is s.func and l.codec not in (None, 'raw') and l.hi >= s.hi and isinstance(l.value, ast.Call) and \
+                        happened_before(fm, l.value, s.stmt):
+                    guarded = True
+                    break
+        if guarded:
+            ctx.ok(rule, s.func, label, 'store beyond the first block is dominated by a test on the header length')
+        else:
+            ctx.fail(rule, s.func, s.stmt, 'bytes %d:%d of a copy of the source header are assigned without checking that the '
+                     'header has a second block: for a file with one header block (which the reader accepts) the slice lies '
+                     'past the end of the bytearray, the assignment appends %d bytes, and the header written out is %d bytes '
+                     'longer than n_header_blocks * %d - the data section of the output is read %d bytes off' % (
+                         s.lo, s.hi, s.hi - s.lo, s.hi - s.lo, dsk, s.hi - s.lo), line=s.node.lineno, key_extra='%d' % s.lo)
+    return n
